@@ -271,6 +271,9 @@ def configs(tier):
     # (all permutation outcomes are out of reach at this length: each draw is the identity or a rotation by one, chosen by the solver)
     long_x = [(i * i + i // 3) % 3 for i in range(140 if q else 270)]
     cf.append(dict(fn="dinucleotide", A=3, x=[long_x], start=0, end=len(long_x), n=1, rotations=True))
+    # a skewed region: one character with more than 128 (thorough: 256) outgoing transitions, so per-character counters must not wrap either
+    skew_x = [0] * (131 if q else 262) + [1, 0, 2, 0, 0, 1, 2, 2, 1, 0, 0, 2, 0]
+    cf.append(dict(fn="dinucleotide", A=3, x=[skew_x], start=0, end=len(skew_x), n=1, rotations=True))
     return cf
 
 
